@@ -16,6 +16,21 @@ def expect_counterexample(run, module, cfg, needle, workers=8, xmx="8g"):
     run.extra.setdefault("planted_bug_counterexamples", []).append("%s/%s: %s" % (module, cfg, needle))
 
 
+def growth_stage(run, b):
+    """Specification growth beyond the listed properties (WsMisc.tla): judged on records from the real
+    code; a mismatch is printed as SPEC-MISMATCH and recorded in the evidence, never a violation."""
+    d, meta = run.drive(b, "growth", sub="growth")
+    try:
+        n, bad = vlib.tlc_records(run, "WsMisc", meta["files"]["records"])
+    except Infra as e:
+        print("SPEC-MISMATCH: growth records could not be judged: %s" % str(e)[:300])
+        return
+    run.extra["spec_growth_records"] = n
+    run.extra["spec_growth_mismatches"] = [key for f, idx, key in bad]
+    for f, idx, key in bad:
+        print("SPEC-MISMATCH: WsMisc rejects %s (not one of the listed properties; see DESIGN.md 13.6)" % key)
+
+
 def prop(pid):
     def deco(fn):
         PROPS[pid] = fn
@@ -199,6 +214,8 @@ def c16(run):
     vlib.tlc_model(run, "WsReaderImpl", cfg="WsReaderImpl_cut", workers=12, xmx="12g")
     expect_counterexample(run, "WsReaderImpl", "WsReaderImpl_bug_cut", "Invariant Refines is violated", workers=12, xmx="12g")
     traces_check(run, b, "c16r", "TraceWsReader")
+    run.assumptions += ["frame-level API and handshakes: io.EOF for a frame of which no payload byte arrived counts as an error report; success is demanded exactly when the whole unit arrived"]
+    records_check(run, b, "c16f", "C16Records")
     return run.finish("fault_enumeration")
 
 
@@ -212,6 +229,11 @@ def c18(run):
     traces_check(run, b, "c18w", "TraceWsWriter")
     run.assumptions += [READER_NOTE, "reader reuse: the monitor is memoryless across messages, so a reader that reads the next message differently from a new one is rejected"]
     traces_check(run, b, "c18r", "TraceWsReader")
+    # the other resettable objects: compression writer/reader, mask reader/writer, UTF-8 reader, negotiator
+    vlib.tlc_model(run, "FlateStream", workers=8)
+    expect_counterexample(run, "FlateStream", "FlateStream_bug_reset", "Invariant Refines is violated", workers=4)
+    run.assumptions += ["compression writer/reader, Cipher*, UTF8Reader, wsflate.Extension: lock-step comparison of every observation of a suffix with a newly constructed instance, after 3-7 histories each (C18Records); the held-tail logic of wsflate.Writer.Reset is model-checked (FlateStream: Reset, ResetIsFresh, planted BugResetKeepsTail)"]
+    records_check(run, b, "c18x", "C18Records")
     return run.finish("model_checking")
 
 
@@ -368,6 +390,7 @@ def c12(run):
 @prop("C09")
 def c09(run):
     b = run.build()
+    growth_stage(run, b)
     run.assumptions += ["Handshake!ServerVerdict / AllowedStatus transcribe the property; the request is generated from token classes, so the classes are ground truth (no classification parse)",
                         "open: a 24-character key that is not base64, an empty Host value, duplicated headers with different values, HTTP/2.0 through HTTPUpgrader",
                         "Sec-WebSocket-Accept is recomputed by the harness with crypto/sha1 + base64 (DESIGN 10)"]
@@ -440,19 +463,41 @@ def c19(run):
                     again += 1
             return bool(bad1), dict(record=json.loads(line), interference_in_reruns="%d/3" % again)
         run.candidate(key, "a concurrently run session observed something else than the same session alone", recheck)
-    # the same driver under the race detector
+    # the same driver under the race detector; then cold starts: processes whose very first sessions
+    # run concurrently (lazily initialised package state), plain and under the race detector
     rb = run.build(race=True, name="wsverif-race")
     logp = os.path.join(run.work, "race")
-    d, meta = run.drive(rb, "c19", sub="c19race", env={"GORACE": "exitcode=0 log_path=%s" % logp})
-    n, bad = vlib.tlc_records(run, "C19Records", meta["files"]["records"])
-    for f, idx, key in bad[:3]:
-        run.candidate("race-build/" + key, "session under -race differs from its solo run", lambda: (True, dict(note="record rejected in the -race build")))
     reports = []
+    sessions = 0
+
+    def race_run(sub, env):
+        nonlocal sessions
+        d, meta = run.drive(rb, "c19", sub=sub, env=dict(env, GORACE="exitcode=0 log_path=%s" % logp))
+        sessions += meta.get("evaluations", 0)
+        n, bad = vlib.tlc_records(run, "C19Records", meta["files"]["records"])
+        run.extra["records_judged_by_tlc"] += n
+        for f, idx, key in bad[:3]:
+            line = open(f).read().splitlines()[idx - 1]
+            run.candidate("race-build/%s/%s" % (sub, key), "session under -race differs from its solo run", lambda line=line: (True, dict(note="record rejected in the -race build", record=json.loads(line))))
+    race_run("c19race", {})
+    colds = 3 if run.tier == "quick" else 25
+    for i in range(colds):
+        race_run("c19cold-race-%d" % i, {"C19_COLD": "1"})
+        d, meta = run.drive(b, "c19", sub="c19cold-%d" % i, env={"C19_COLD": "1"})
+        run.absorb(meta)
+        n, bad = vlib.tlc_records(run, "C19Records", meta["files"]["records"])
+        run.extra["records_judged_by_tlc"] += n
+        for f, idx, key in bad[:3]:
+            line = open(f).read().splitlines()[idx - 1]
+            # a cold start cannot be re-executed inside the same process: the rejected record is the evidence
+            run.candidate("coldstart/%d/%s" % (i, key), "a session among the first concurrent sessions of a process observed something else than the same session alone",
+                          lambda line=line: (True, dict(record=json.loads(line))))
+    run.extra["cold_start_processes"] = 2 * colds
     for f in glob.glob(logp + "*"):
         txt = open(f).read()
         if "DATA RACE" in txt:
             reports.append(txt[:6000])
-    run.extra["race_detector_sessions"] = meta.get("evaluations", 0)
+    run.extra["race_detector_sessions"] = sessions
     run.extra["race_reports"] = len(reports)
     for i, rep in enumerate(reports[:3]):
         run.candidate("race/%d" % i, "data race reported by the Go race detector", lambda rep=rep: (True, dict(report=rep)))
